@@ -55,7 +55,7 @@ func init() {
 		c.Run.Floor("K-NILFUNC/guard", 2)
 		c.Run.Floor("K-NILFUNC/panic", 3)
 		c.Run.Floor("K-NILFUNC/stub-branch", 2)
-		c.RunSkeletons(SkelOpts{Rules: []string{"K-NILFUNC", "K-RECORD/every-path", "K-RECORD/before-callback", "G-DATA/flags", "G-DATA/results", "G-SCOPE/shared", "G-MOCK/accepts"}})
+		c.RunSkeletons(SkelOpts{Rules: []string{"K-NILFUNC", "K-RECORD/every-path", "K-RECORD/before-callback", "G-DATA/flags", "G-DATA/results", "G-SCOPE/shared", "G-MOCK/accepts"}, UnknownOptions: true})
 		flagFlow(c, "stub")
 		cliAlwaysGenerates(c)
 		// the result variables of the -stub branch are allocated like parameters, in the same scope, and the
@@ -67,7 +67,7 @@ func init() {
 		skeletonExplain(c, "C08 (reset API only on request, clears exactly what it names): the method set of every mock is {M, MCalls} for each M, plus {ResetMCalls for each M, ResetCalls} iff with-resets (every other flag combination); ResetMCalls writes nil, unconditionally and under the write lock, to exactly the slice its method appends to and reads nothing; ResetCalls does so for the slices of all methods; clearing is `= nil`, never a re-slice. The flag's way from the command line to the template data is checked as an identity flow on the generator's source (G-FLAGS).")
 		c.Run.Floor("K-MSET/reset", 4)
 		c.Run.Floor("K-RESET/frame", 4)
-		c.RunSkeletons(SkelOpts{Rules: []string{"K-MSET", "K-RESET", "K-RECORD/writers", "K-LOCK/access-locked", "K-LOCK/write-exclusive", "G-DATA/flags", "G-MOCK/accepts"}, KeepOb: func(o skel.Ob, e tmpl.Env) bool {
+		c.RunSkeletons(SkelOpts{Rules: []string{"K-MSET", "K-RESET", "K-RECORD/writers", "K-LOCK/access-locked", "K-LOCK/write-exclusive", "G-DATA/flags", "G-MOCK/accepts"}, UnknownOptions: true, KeepOb: func(o skel.Ob, e tmpl.Env) bool {
 			if strings.HasPrefix(o.Rule, "K-RECORD/writers") || strings.HasPrefix(o.Rule, "K-LOCK/") {
 				return strings.HasPrefix(o.Key, "reset")
 			}
